@@ -453,6 +453,11 @@ func c20Run(t *testing.T, st *vstat.Stats, p c20Plan) *viol {
 	if obs.Err != nil {
 		return violf("harness", "%v", obs.Err)
 	}
+	if obs.Viol != nil && !p.Recorded && c20LogHasEffectiveForgery(o) {
+		// the log contains a forged contribution that the original nodes refused (bad signature) but that sits where the
+		// genuine one was awaited: the re-initialisation replays the dump with verification switched off and takes it
+		obs.Viol.Key = "reinit-accepts-forged-message-from-log"
+	}
 	if obs.Viol != nil {
 		obs.Viol.What = fmt.Sprintf("n=%d t=%d adapt014=%v recorded=%v batches=%d junk=%d: %s", p.N, p.T, p.Adapt014, p.Recorded, p.Batches, p.Junk, obs.Viol.What)
 		return obs.Viol
@@ -616,4 +621,29 @@ func c20ViaCLI(binDir, root string, log []storage.Message, newKeys map[string][]
 		return nil, fmt.Errorf("%v: %s", err, clip(string(out), 300))
 	}
 	return os.ReadFile(outPath)
+}
+
+// c20LogHasEffectiveForgery: the original log holds a badly signed commit "from" a participant at a position where
+// that participant's commit was still awaited (after the last confirmation, before its genuine commit).
+func c20LogHasEffectiveForgery(o c20Orig) bool {
+	confirms := 0
+	genuine := map[string]bool{}
+	for _, m := range o.Log {
+		if m.DkgRoundID != o.Round {
+			continue
+		}
+		switch m.Event {
+		case "event_sig_proposal_confirm_by_participant":
+			confirms++
+		case "event_dkg_commit_confirm_received":
+			if string(m.Signature) == "bad" {
+				if confirms >= len(o.Names) && !genuine[m.SenderAddr] {
+					return true
+				}
+			} else {
+				genuine[m.SenderAddr] = true
+			}
+		}
+	}
+	return false
 }
